@@ -69,7 +69,6 @@
 EXPORT int printf_s(const char *restrict fmt, ...) {
     va_list va;
     int ret;
-    const char *p;
     char buffer[1];
 
     if (unlikely(fmt == NULL)) {
@@ -78,13 +77,10 @@ EXPORT int printf_s(const char *restrict fmt, ...) {
         return -ESNULLP;
     }
     // catch %n early, before it outputs anything
-    if (unlikely((p = strnstr(fmt, "%n", RSIZE_MAX_STR)))) {
-        /* at the beginning or if inside, not %%n */
-        if ((p - fmt == 0) || *(p - 1) != '%') {
-            invoke_safe_str_constraint_handler("vsnprintf_s: illegal %n", NULL,
-                                               EINVAL);
-            return -(EINVAL);
-        }
+    if (unlikely(safec_fmt_has_n(fmt, 0))) {
+        invoke_safe_str_constraint_handler("vsnprintf_s: illegal %n", NULL,
+                                           EINVAL);
+        return -(EINVAL);
     }
 
     va_start(va, fmt);
